@@ -255,7 +255,9 @@ def run(chk, facts_by_config):
     import multiprocessing as mp
     import ctor
     chk.trusted += ['the rewrite rules of analysis/terms.py (bit-vector / ring identities)', 'rustc MIR construction',
-                    'core integer semantics as modelled', 'Des::decrypt inverts Des::encrypt (for the Triple-DES clause only)']
+                    'core integer semantics as modelled', 'Des::decrypt inverts Des::encrypt (for the Triple-DES clause; itself proved for des::Des by the bit-level engine)',
+                    'the GF(2)-affine normal form and the truth-table normal form of analysis/bitform.py',
+                    'constant tables are immutable (C15 E2): A[B[x]] = x is read off the two constant tables']
     res = ctor.run_all(facts_by_config, lens=ctor.lens_for_tier('quick'))
     import canary
     for cfgname, F in facts_by_config.items():
